@@ -182,6 +182,9 @@ class Interp:
     def e_IfExp(self, e, S, sc):
         S = self.expr(e.test, S, sc)
         t, f = self._refine(e.test, S, sc)
+        # clients that track values learn which arm this path takes
+        t = self._event("ifexp_true", e, t, sc)
+        f = self._event("ifexp_false", e, f, sc)
         return self.expr(e.body, t, sc) | self.expr(e.orelse, f, sc)
 
     def e_Lambda(self, e, S, sc):
